@@ -46,8 +46,9 @@ def blade_name(k, d, start_index):
     return 'e' + ''.join(hex(i + start_index)[2:] for i in range(d) if k & (1 << i))
 
 
-def ref_tables(p, q, r):
-    """signature, canonical key order and Cayley table of Algebra(p, q, r) in the default basis."""
+def ref_tables(p, q, r, signature=None):
+    """signature, canonical key order and Cayley table of Algebra(p, q, r) (or of Algebra(signature=...), the
+    squares of the basis vectors in the order given) in the default basis."""
     d = p + q + r
     if r == 1:
         sig = [0] * r + [1] * p + [-1] * q
@@ -55,6 +56,9 @@ def ref_tables(p, q, r):
     else:
         sig = [1] * p + [-1] * q + [0] * r
         start = 1
+    if signature is not None:
+        assert sorted(signature) == sorted(sig)
+        sig = list(signature)
     names = {k: blade_name(k, d, start) for k in range(2 ** d)}
     canon = sorted(range(2 ** d), key=lambda k: (len(names[k]), names[k]))
     cay = []
@@ -257,8 +261,8 @@ class World20:
                 world.on_kernel_publish(self, msg_type, data, buffers)
         comm.create_comm = lambda *a, **k: CapturingComm(*a, **k)
         a = self.cfg['algebra']
-        self.alg = Algebra(a['p'], a['q'], a['r'])
-        self.canon = ref_tables(a['p'], a['q'], a['r'])[1]       # canonical blade order from the independent reference
+        self.alg = Algebra(a['p'], a['q'], a['r']) if not a.get('signature') else Algebra(signature=list(a['signature']))
+        self.canon = ref_tables(a['p'], a['q'], a['r'], a.get('signature'))[1]       # canonical blade order from the independent reference
         self.cidx = {k: i for i, k in enumerate(self.canon)}
         # scene multivectors
         self.mvs = []
@@ -558,7 +562,7 @@ class World20:
 
     def check_tables(self):
         a = self.cfg['algebra']
-        sig, canon, cay = ref_tables(a['p'], a['q'], a['r'])
+        sig, canon, cay = ref_tables(a['p'], a['q'], a['r'], a.get('signature'))
         w = self.widget
         k2i = self.current_wire_state('key2idx')
         if self.current_wire_state('signature') != sig:
